@@ -34,7 +34,8 @@ def shuffled_nc_style(rng, inp, identity=False):
         for k in order:
             rng.shuffle(order[k])
     fits = max(inp["times"]) < 2 ** 31 - 1
-    return {"enc": ["fill"], "order": order, "vars": {"location": True, "lat": True, "lon": True, "altitude": True},
+    unset = rng.randint(0, len(inp["times"])) if (not identity and rng.random() < 0.25) else None
+    return {"enc": ["fill"], "unset_time_slot": unset, "order": order, "vars": {"location": True, "lat": True, "lon": True, "altitude": True},
             "time_type": "i4" if fits else "f8"}
 
 
